@@ -949,7 +949,12 @@ def oracle_c07(case, obs):
             else:
                 cls = "other"
             by_head.setdefault(head, []).append((dname, cls))
-            if cls in ("ambiguous", "unknown") and res is not False:
+            # (a name of the list that other names' imports resolved before its turn is not "a name with
+            #  several candidates" any more: only names that still need import afterwards are judged)
+            still = True
+            if isinstance(co.get("sni_after"), list) and len(co["sni_after"]) == len(missing):
+                still = co["sni_after"][missing.index(dname)] is True
+            if cls in ("ambiguous", "unknown") and res is not False and still:
                 fails.append(dict(what="%s name did not make the call report failure" % cls, name=dname,
                                   **_ctx(case, ci, co)))
         for head, lst in by_head.items():
